@@ -28,6 +28,8 @@ def VIEWS_LAYOUT_ITEMS(it, tier):
 def items(tier):
     out = []
     for g in module_grid(tier):
+        if g.get("concrete_fd"):
+            continue        # concrete finite-difference items of C01 (no symbolic inputs)
         if g["mod"] == "linsolve" and g.get("lda", True):
             continue
         if g["mod"] == "eigensolve_sparse":
